@@ -964,6 +964,37 @@ func (ctx *EvalCtx) call(e *CExpr) TV {
 		// iface(p): interface value holding pointer p with its static type
 		x := arg(0)
 		return TV{t: app("mk-iface", intLit(int64(vc.eng.typeTag(x.typ))), x.t), typ: types.NewInterfaceType(nil, nil)}
+	case "tier":
+		// tier(q, t): the integer q in the quick tier, t in the thorough tier
+		if vc.eng.tier == "thorough" {
+			return arg(1)
+		}
+		return arg(0)
+	case "tofp", "i2f":
+		return TV{t: vc.i2f(arg(0).t), typ: types.Typ[types.Float64]}
+	case "f2i":
+		vc.decl("(declare-fun f2i (Float64) Int)")
+		return intTV(app("f2i", arg(0).t))
+	case "fintegral":
+		x := arg(0)
+		return boolTV(app("fp.eq", app("fp.roundToIntegral", leaf("RTZ"), x.t), x.t))
+	case "flt":
+		return boolTV(app("fp.lt", arg(0).t, arg(1).t))
+	case "fmod10nz":
+		// x is not a multiple of 10: x/10 is not integral (exact for |x| < 2^53: fp.rem is exact)
+		x := arg(0)
+		return boolTV(mkNot(app("fp.isZero", app("fp.rem", x.t, fpLit(10)))))
+	case "fdiv", "fmul", "fadd", "fsub":
+		op := map[string]string{"fdiv": "fp.div", "fmul": "fp.mul", "fadd": "fp.add", "fsub": "fp.sub"}[name]
+		return TV{t: app(op, leaf("RNE"), arg(0).t, arg(1).t), typ: types.Typ[types.Float64]}
+	case "fabs":
+		return TV{t: app("fp.abs", arg(0).t), typ: types.Typ[types.Float64]}
+	case "fmtfloat":
+		vc.decl("(declare-fun fmtfloat (Float64) Int)")
+		return TV{t: app("fmtfloat", arg(0).t), typ: types.Typ[types.String]}
+	case "indexbyte":
+		vc.decl("(declare-fun indexbyte (Int Int) Int)")
+		return intTV(app("indexbyte", arg(0).t, arg(1).t))
 	case "asIface":
 		// asIface(p, T): the interface value of (interface) type T holding the pointer p
 		x := arg(0)
